@@ -160,9 +160,7 @@ func blockSend(x *kinds.Sock, tag string) (*kit.Call, []string) {
 func sendModes(mode string) {
 	k := pickKind()
 	d := deadlines[kit.ChooseFree(len(deadlines))]
-	if mode == "besteffort" && d != deadlines[0] {
-		return
-	}
+
 	x := k.Open("c18s", true, true)
 	x.Quiet()
 	if !k.CanSend {
@@ -180,6 +178,10 @@ func sendModes(mode string) {
 				return
 			}
 			kit.Failf("besteffort-set:"+k.Name, "SetOption(BestEffort): %s", kit.ErrName(err))
+		}
+		// best effort wins over a send deadline that is configured as well
+		if d > 0 {
+			_ = x.S.SetOption(mangos.OptionSendDeadline, d)
 		}
 		blocked, accepted := blockSend(x, "be")
 		if blocked != nil {
@@ -216,7 +218,7 @@ func sendModes(mode string) {
 		if len(seen) < len(accepted) {
 			kit.Count("best-effort-dropped")
 		}
-		kit.Observe("%s be", k.Name) // (how many best-effort messages reach the wire is schedule dependent)
+		kit.Observe("%s be d=%v", k.Name, d) // (how many best-effort messages reach the wire is schedule dependent)
 		kit.Must("Close", func() { _ = x.S.Close() })
 		return
 	}
